@@ -154,6 +154,8 @@ cmd_check() {
   local t1; t1=$(date +%s.%N)
   local wall; wall=$(echo "$t1 - $t0" | bc)
   local ev="$ROOT/evidence/$id.json"
+  # development runs against a scratch worktree (VERIF_REPO_DIR) never touch the evidence of /repo
+  [ "$REPO" != /repo ] && ev="$work/evidence-alt.json"
   local res
   res=$(python3 "$ROOT/tools/merge_evidence.py" "$id" "$tier" "$SEED" "$work/out" "$ev" "$wall" "$ROOT/known_findings.jsonl")
   echo "$res" | grep '^KNOWN-FINDING' || true
